@@ -4,6 +4,7 @@ package main
 
 import (
 	"fmt"
+	"regexp"
 	"sort"
 	"strings"
 
@@ -259,7 +260,7 @@ func (w *World) deadErrEval(c ssa.Value) (bool, bool) {
 			case *ssa.Extract:
 				call, _ = y.Tuple.(*ssa.Call)
 			}
-			if call != nil && isErrorType(side.Type()) && w.alwaysNilErr(call, map[*ssa.Function]bool{}) {
+			if call != nil && isErrorType(side.Type()) && (w.alwaysNilErr(call, map[*ssa.Function]bool{}) || (w.neverFails != nil && w.neverFails(call))) {
 				other := bo.Y
 				if side == bo.Y {
 					other = bo.X
@@ -337,10 +338,16 @@ func (w *World) pathEffects(fn *ssa.Function, events []string, evMap map[string]
 			continue
 		}
 		// the callee's own error edge
-		if i+1 < len(events) && strings.HasPrefix(events[i+1], "?") {
-			if isErr, _ := errBranchOf(w, events[i+1], e.Call); isErr && failClean(e) {
-				continue
+		// (the branch decisions that follow the call before any other event; a
+		// decision is recorded in up to two spellings, see enumPaths)
+		ownErr := false
+		for j := i + 1; j < len(events) && strings.HasPrefix(events[j], "?"); j++ {
+			if isErr, _ := errBranchOf(w, events[j], e.Call); isErr {
+				ownErr = true
 			}
+		}
+		if ownErr && failClean(e) {
+			continue
 		}
 		// compensation
 		var rest []*effect
@@ -368,6 +375,10 @@ func (w *World) analyseAtomic(fn *ssa.Function, onStack map[*ssa.Function]bool) 
 	}
 	if v, ok := atomicMemo[fn]; ok {
 		return v
+	}
+	// the EVM controller is atomic by snapshot/revert, which A-4 decides
+	if w.evmAtomic && w.FName(fn) == "evm.(*EVMCtrler).ExecuteTrx" {
+		return &atomicVerdict{failClean: true}
 	}
 	if onStack[fn] || fn.Blocks == nil {
 		return &atomicVerdict{failClean: true}
@@ -431,6 +442,22 @@ func (w *World) analyseAtomic(fn *ssa.Function, onStack map[*ssa.Function]bool) 
 		if p.Term != "err" && p.Term != "unknown" {
 			continue
 		}
+		if p.Term == "unknown" && p.Ret != nil {
+			// `return f(...)` where f never fails is a success exit
+			if idx := errResultIndex(fn); idx >= 0 && idx < len(p.Ret.Results) {
+				rv := stripConv(retResult(p.Ret, idx))
+				var call *ssa.Call
+				switch y := rv.(type) {
+				case *ssa.Call:
+					call = y
+				case *ssa.Extract:
+					call, _ = y.Tuple.(*ssa.Call)
+				}
+				if call != nil && (w.alwaysNilErr(call, map[*ssa.Function]bool{}) || (w.neverFails != nil && w.neverFails(call))) {
+					continue
+				}
+			}
+		}
 		if p.Term == "unknown" {
 			// returning a callee's error: only an error path when that callee failed; the
 			// last event decides (its own error edge is clean if the callee is fail-clean)
@@ -464,6 +491,9 @@ func (w *World) analyseAtomic(fn *ssa.Function, onStack map[*ssa.Function]bool) 
 			v.failClean = false
 			if v.witness == "" {
 				v.witness = "error exit with effects still in force: " + strings.Join(ss, ", ")
+				if p.Ret != nil {
+					v.witness += " [error exit at " + w.InstrPos(p.Ret) + "]"
+				}
 			}
 		}
 	}
@@ -617,13 +647,17 @@ func a3(w *World, r *Report) {
 		if cv1 == nil {
 			return false, "commonValidation1 not found"
 		}
-		_, ok := w.guardProtectsSuccess(cv1, func(c string) bool {
-			return c == "(p0.Sender.CheckBalance(new(uint256.Int).Add("+feeExpr+", p0.Tx.Amount)) != nil)"
-		})
+		fe := regexp.QuoteMeta(feeExpr)
+		need := `^p0\.Sender\.CheckBalance\(new\(uint256\.Int\)\.Add\((` + fe + `, p0\.Tx\.Amount|p0\.Tx\.Amount, ` + fe + `)\)\)$`
+		// under "CheckBalance(fee + amount) reports an error" commonValidation1 has no successful path
+		ok, _ := w.failsUnder(cv1, nil, AR(need, "!=", `^nil$`))
 		cb := w.Method(pkgCT, "Account", "CheckBalance")
 		okcb := false
 		if cb != nil {
-			_, okcb = w.guardProtectsSuccess(cb, func(c string) bool { return c == "(p0.Cmp(recv.Balance) > 0)" || c == "(recv.Balance.Cmp(p0) < 0)" })
+			// under "amount > balance" CheckBalance fails, under "amount <= balance" it succeeds
+			f1, _ := w.failsUnder(cb, nil, A("p0", ">", "recv.Balance"))
+			o2 := w.runUnder(cb, nil, nil, A("p0", "<=", "recv.Balance"))
+			okcb = f1 && o2.complete && o2.ok > 0 && o2.err == 0
 		}
 		if !ok {
 			return false, "commonValidation1 no longer rejects balance < gas x price + amount with the fee expression postRunTrx debits"
@@ -633,6 +667,34 @@ func a3(w *World, r *Report) {
 		}
 		return true, ""
 	}
+	// Two steps are known not to fail where they stand; each carries a structural
+	// side condition that is checked here. With the side condition intact the
+	// step's error edge is treated as dead; otherwise it is an ordinary error exit.
+	feeOK, feeWhy := feeSide()
+	delOK, delWhy := w.unstakeSide()
+	r.Check(feeOK, "A-3", "side-condition:fee-debit-cannot-fail", "commonValidation1 rejects balance < gas x price + amount with the fee expression postRunTrx debits, and CheckBalance is `amount > balance -> error`: the fee debit after the controller ran cannot fail", "the side condition of the fee-debit step no longer holds: "+feeWhy)
+	r.Check(delOK, "A-3", "side-condition:delegatee-delete-cannot-miss", "exeUnstaking deletes the key of the delegatee it has just obtained from the same overlay: the delete cannot miss", "the side condition of the delete-delegatee step no longer holds: "+delWhy)
+	w.neverFails = func(call *ssa.Call) bool {
+		if feeOK && w.canonCallI(call.Common()) == "p0.Sender.SubBalance("+feeExpr+")" && call.Parent() != nil && call.Parent().Name() == "postRunTrx" {
+			return true
+		}
+		if delOK && w.isDelegateeDelete(call) {
+			return true
+		}
+		return false
+	}
+	{
+		tmp := NewReport(r.Prop, r.Tier)
+		a4(w, tmp)
+		w.evmAtomic = len(tmp.Obs) > 0
+		for _, o := range tmp.Obs {
+			if o.Status != stOK {
+				w.evmAtomic = false
+			}
+		}
+	}
+	atomicMemo = map[*ssa.Function]*atomicVerdict{}
+	defer func() { w.neverFails = nil; w.evmAtomic = false; atomicMemo = map[*ssa.Function]*atomicVerdict{} }()
 	for _, ref := range a3Functions {
 		fn := needFn(r, "A-3", w, ref)
 		if fn == nil {
@@ -644,80 +706,65 @@ func a3(w *World, r *Report) {
 			r.OK("A-3", key, "no error exit is reachable while an effect of this function is in force", fnSite(w, fn))
 			continue
 		}
-		// exceptions
-		switch refStr(ref) {
-		case "node.postRunTrx", "node.runTrx":
-			if strings.Contains(v.witness, "Account.SubBalance") || strings.Contains(v.witness, "node.postRunTrx") || strings.Contains(v.witness, ".ExecuteTrx@") {
-				if ok, why := feeSide(); ok {
-					// the only live effect must be the controller execution / fee debit itself
-					if onlyFeeDebit(v.witness) {
-						r.OK("A-3", key, "excepted with checked side condition: the fee debit after the controller ran cannot fail because commonValidation1 rejected balance < gas x price + amount (same fee expression) and CheckBalance is `amount > balance → error`; witness was: "+v.witness, fnSite(w, fn))
-						continue
-					}
-				} else {
-					r.Violate("A-3", key, "the side condition of the fee-debit exception no longer holds: "+why, nil, fnSite(w, fn))
-					continue
-				}
-			}
-		case "stake.(*StakeCtrler).exeUnstaking", "stake.(*StakeCtrler).ExecuteTrx":
-			if ok, why := w.unstakeSide(); ok && onlyDelDelegatee(v.witness) {
-				r.OK("A-3", key, "excepted with checked side condition: the only error exit after the effects is DelFinality/Del of delegatee.Key() for the delegatee just obtained from the same overlay, which cannot miss; witness was: "+v.witness, fnSite(w, fn))
-				continue
-			} else if !ok {
-				r.Violate("A-3", key, "the side condition of the delete-delegatee exception no longer holds: "+why, nil, fnSite(w, fn))
-				continue
-			}
-		}
 		r.Violate("A-3", key, v.witness, nil, fnSite(w, fn))
 	}
 }
 
-// onlyFeeDebit: the witness lists only the controller execution as live effect
-// (i.e. the failing step is postRunTrx's fee debit).
-func onlyFeeDebit(wit string) bool {
-	wit = strings.TrimPrefix(wit, "error exit with effects still in force: ")
-	for _, part := range strings.Split(wit, ", ") {
-		if !(strings.Contains(part, ".ExecuteTrx@")) {
+// isDelegateeDelete: a Del/DelFinality on the delegatee ledger whose key is
+// <delegatee obtained from the same ledger for ctx.Tx.To>.Key().
+func (w *World) isDelegateeDelete(call *ssa.Call) bool {
+	arms := w.ledgerArms(call)
+	if len(arms) == 0 {
+		return false
+	}
+	for _, a := range arms {
+		if a.Method != "Del" && a.Method != "DelFinality" {
+			return false
+		}
+		if !strings.HasSuffix(w.Canon(a.Recv), ".delegateeLedger") {
 			return false
 		}
 	}
-	return true
-}
-
-func onlyDelDelegatee(wit string) bool {
-	wit = strings.TrimPrefix(wit, "error exit with effects still in force: ")
-	for _, part := range strings.Split(wit, ", ") {
-		ok := strings.HasPrefix(part, "Delegatee.DelStake@") || strings.HasPrefix(part, "Delegatee.DelAllStakes@") || strings.Contains(part, ".frozenLedger.Set") || strings.Contains(part, "RefundHeight = …") || strings.HasPrefix(part, "stake.(*StakeCtrler).exeUnstaking@")
-		if !ok {
-			return false
-		}
+	args := call.Common().Args
+	if len(args) == 0 {
+		return false
 	}
-	return true
+	arg := w.Canon(args[len(args)-1])
+	return delegateeKeyRe.MatchString(arg)
 }
 
-// unstakeSide: in exeUnstaking the failing call is delDelegatee(delegatee.Key())
-// where delegatee came from getDelegatee of the same ledger and arm.
+var delegateeKeyRe = regexp.MustCompile(`delegateeLedger\.(Get|GetFinality).*\(ledger\.ToLedgerKey\(p0\.Tx\.To\)\)#0\)?\.Key\(\)$`)
+
 func (w *World) unstakeSide() (bool, string) {
 	fn := w.Method("ctrlers/stake", "StakeCtrler", "exeUnstaking")
 	if fn == nil {
 		return false, "exeUnstaking not found"
 	}
+	n := 0
 	for _, c := range CallsIn(fn) {
-		arms := w.ledgerArms(c)
-		if len(arms) != 2 {
+		call, ok := c.(*ssa.Call)
+		if !ok {
 			continue
 		}
-		if !(arms[0].Method == "Del" && arms[1].Method == "DelFinality" || arms[1].Method == "Del" && arms[0].Method == "DelFinality") {
+		arms := w.ledgerArms(call)
+		isDel := false
+		for _, a := range arms {
+			if (a.Method == "Del" || a.Method == "DelFinality") && strings.HasSuffix(w.Canon(a.Recv), ".delegateeLedger") {
+				isDel = true
+			}
+		}
+		if !isDel {
 			continue
 		}
-		arg := w.Canon(c.Common().Args[0])
-		want := "phi(recv.delegateeLedger.Get|recv.delegateeLedger.GetFinality)(ledger.ToLedgerKey(p0.Tx.To))#0.Key()"
-		if arg != want {
-			return false, "the deleted key is " + arg
+		if !w.isDelegateeDelete(call) {
+			return false, "a delegatee delete whose key is not the key of the delegatee just obtained: " + w.canonCall(call.Common(), 0)
 		}
-		return true, ""
+		n++
 	}
-	return false, "no Del/DelFinality of the delegatee found"
+	if n == 0 {
+		return false, "no Del/DelFinality of the delegatee found"
+	}
+	return true, ""
 }
 
 func a4(w *World, r *Report) {
